@@ -16,20 +16,20 @@ impl Uniform {
     /// # Errors
     /// Panics if `lower > upper`.
     pub fn new(lower: f64, upper: f64) -> Self {
-        if lower > upper {
+        if !(lower <= upper) {
             panic!("`Upper` must be larger than `lower`.");
         }
         Uniform { lower, upper }
     }
     pub fn set_lower(&mut self, lower: f64) -> &mut Self {
-        if lower > self.upper {
+        if !(lower <= self.upper) {
             panic!("Upper must be larger than lower.")
         }
         self.lower = lower;
         self
     }
     pub fn set_upper(&mut self, upper: f64) -> &mut Self {
-        if self.lower > upper {
+        if !(self.lower <= upper) {
             panic!("Upper must be larger than lower.")
         }
         self.upper = upper;
